@@ -43,6 +43,10 @@ type Unit struct {
 	Roots    []string `json:"roots"`
 	// Sweep: every function of these packages matching the prefix list is a root (safety only)
 	SweepFuncs []string `json:"sweep_funcs,omitempty"`
+	// Scope for this unit only: "tagged" (same meaning as the property-level scope) or "clauses" (tagged, and the
+	// implicit non-nil-argument obligations at modular call sites are dropped too: they are nil-dereference safety
+	// of the callee, not a written clause)
+	Scope string `json:"scope,omitempty"`
 	// Lockset: run the static lock-discipline analysis (type contracts protected_by / immutable / ...) over every
 	// function of the unit's packages
 	Lockset bool `json:"lockset,omitempty"`
@@ -212,12 +216,15 @@ func runUnit(u Unit, cfg *PropConfig, tier string, workdir string, res *checkRes
 	if v := os.Getenv("GOVC_TIMEOUT"); v != "" {
 		fmt.Sscanf(v, "%d", &timeout)
 	}
-	if cfg.Scope == "tagged" {
+	if cfg.Scope == "tagged" || u.Scope == "tagged" || u.Scope == "clauses" {
 		// this property's check counts contract clauses (and the invariants / preconditions they rest on);
 		// the zero-annotation safety sweep of code reached after them belongs to other properties
 		var keep []*Obligation
 		for _, o := range e.obligations {
 			if o.Kind == "safety" || o.Kind == "alloc" {
+				continue
+			}
+			if u.Scope == "clauses" && o.Kind == "requires" && strings.Contains(o.Name, ":nonnil.") {
 				continue
 			}
 			keep = append(keep, o)
